@@ -42,9 +42,11 @@
   outside the model (the property's own limit: bounded nesting depth).
 
   The literal decoders are PARAMETERS (like the Unicode predicates): which
-  literal tokens decode, and the error a failing one yields. The slices of
-  `simple_literal` (`&s[1..s.len() - 1]`, `&s[2..]`) and of
-  `unescape_f_string_part` are inside that oracle, not in the model (partial).
+  literal tokens decode, and the error a failing one yields. The slices
+  `simple_literal` takes of the token text first (`&s[1..s.len() - 1]`,
+  `&s[2..]`) ARE in the model and proved not to panic (`literal_slices_ok`, from
+  the shape of the token text the lexer model guarantees); the slices inside
+  `unescape_f_string_part` are part of the oracle (partial).
 -/
 import RotoV.Lemmas.ParseTop
 
@@ -53,6 +55,25 @@ open RotoV RotoV.Lex RotoV.Parse
 
 /-- obligation on the GENERATED punctuation tables (as in Props/C06) -/
 theorem tables_ok : TablesOk := ⟨by decide, by decide⟩
+
+/-- obligation on the GENERATED keyword table: no keyword is given the kind of a
+literal whose text `simple_literal` slices (string, character, hexadecimal, AS number) -/
+theorem keyword_kinds_ok : KwKindsOk := by unfold KwKindsOk; decide
+
+theorem lex_ok : LexOk := ⟨tables_ok, keyword_kinds_ok⟩
+
+/-- `simple_literal`'s slices (`&s[1..s.len() - 1]`, `&s[2..]`) cannot panic on
+a token of the lexer model: the text of a string token starts and ends with a
+quote, of a hexadecimal number with `0x`, of an AS number with `AS` — for every
+token `next_inner` can return, from any reachable lexer state. -/
+theorem literal_slices_ok (P : Preds) (src : List Char) (L L' : Lexer) (hr : Reach src L)
+    (k : TokKind) (sp : Span) (h : nextInner P L = .ok (.tok k sp, L')) :
+    litSlices k (textOf src sp) = .ok () :=
+  litSlices_ok (nextInner_text keyword_kinds_ok P tables_ok hr h)
+
+/-- non-vacuity: a string token and the slice the parser takes of it -/
+example : litSlices .string ['"', 'a', '€', '"'] = .ok () ∧ litSlices .string ['"'] = .panic ∧
+    litSlices .hex ['€'] = .panic := by decide
 
 /-- obligation on the GENERATED look-ahead windows of `atom`: tried in order,
 `peek_many::<N>` never computes `N - self.peeked.len()` with `len > N` -/
@@ -66,7 +87,7 @@ theorem rel_never_panics (p op : BinOp) :
 for every fuel of at least `32 · len + 1`. -/
 theorem parse_total (c : Ctx) (hl : LitOk c) (fuel : Nat) (hf : 32 * blen c.src + 1 ≤ fuel) :
     (∃ t sp, parseWith c fuel = .tree t sp) ∨ (∃ e sp, parseWith c fuel = .error e sp) := by
-  have h := parseWith_ok tables_ok hl windows_ok fuel hf
+  have h := parseWith_ok lex_ok hl windows_ok fuel hf
   revert h
   cases parseWith c fuel with
   | tree t sp => exact fun _ => Or.inl ⟨t, sp, rfl⟩
@@ -86,7 +107,7 @@ theorem parse_error_spans_ok (c : Ctx) (hl : LitOk c) (fuel : Nat) (hf : 32 * bl
     (SpanOk c.src e.span ∧ ∃ a b, characterRange c.src e.span = .ok (a, b) ∧ a ≤ b ∧ b ≤ c.src.length) ∧
     ∀ x, e.hint = some x →
       SpanOk c.src x ∧ ∃ a b, characterRange c.src x = .ok (a, b) ∧ a ≤ b ∧ b ≤ c.src.length := by
-  have h0 := parseWith_ok tables_ok hl windows_ok fuel hf
+  have h0 := parseWith_ok lex_ok hl windows_ok fuel hf
   rw [h] at h0
   exact ⟨⟨h0.1, characterRange_ok _ _ h0.1⟩, fun x hx => ⟨h0.2 x hx, characterRange_ok _ _ (h0.2 x hx)⟩⟩
 
@@ -95,7 +116,7 @@ source on character boundaries (later stages cite these) -/
 theorem parse_span_table_ok (c : Ctx) (hl : LitOk c) (fuel : Nat) (hf : 32 * blen c.src + 1 ≤ fuel)
     (t : Sx) (sp : List Span) (h : parseWith c fuel = .tree t sp) :
     ∀ x ∈ sp, SpanOk c.src x ∧ ∃ a b, characterRange c.src x = .ok (a, b) ∧ a ≤ b ∧ b ≤ c.src.length := by
-  have h0 := parseWith_ok tables_ok hl windows_ok fuel hf
+  have h0 := parseWith_ok lex_ok hl windows_ok fuel hf
   rw [h] at h0
   exact fun x hx => ⟨h0 x hx, characterRange_ok _ _ (h0 x hx)⟩
 
